@@ -1,5 +1,7 @@
-"""Drive the real aggregator through engine registrations, disconnects, graceful aggregator restarts and run messages
-(property C28).  One `ReconnHarness` = one in-memory SQLite database that survives `restart()`, and the current
+"""Drive the real aggregator through engine registrations, disconnects, graceful aggregator restarts, crashes of the
+aggregator process and run messages (property C28).  The engine under observation has a configurable name (engine id),
+log interval and clock epoch; a second engine with its own runs can be interleaved as noise (`o-*` ops) — everything
+observed is filtered to the first engine's id.  One `ReconnHarness` = one in-memory SQLite database that survives `restart()`, and the current
 `Aggregator` + `AggregatorMessageHandlers` working on it.  Everything goes through the public message handlers exactly
 as the dispatcher calls them; publishers are mocks.  Nothing in /repo is touched or monkey-patched.
 """
@@ -34,8 +36,11 @@ def _rid(k: int) -> str:
 class ReconnHarness:
     COMPUTER = "pc"
     UOD = "uod"
+    NAMES = [("pc", "uod"), ("lab_pc 7", "uod_A"), ("pc", "uod/ü")]     # engine ids with separator / special characters
 
     def __init__(self) -> None:
+        self.interval = 0          # data_log_interval_seconds the engine reports
+        self.epoch = 0             # added to every tick time sent (the engine's clock)
         import openpectus.aggregator.data.models as DMdl
         from openpectus.aggregator.data import database
         loop()
@@ -63,6 +68,13 @@ class ReconnHarness:
         self.agg = Aggregator(AggregatorDispatcher(), publisher, webpush)
         self.handlers = AggregatorMessageHandlers(self.agg)
         self.engine_id = self.agg.create_engine_id(self._register_msg())
+        self.other_id = self.agg.create_engine_id(self._register_msg(other=True))
+
+    def configure(self, name: int = 0, interval: int = 0, epoch: int = 0) -> None:
+        """Per case: which engine (name), its log interval, its clock epoch.  Call right after `wipe()`."""
+        self.COMPUTER, self.UOD = self.NAMES[name % len(self.NAMES)]
+        self.interval, self.epoch = interval, epoch
+        self.engine_id = self.agg.create_engine_id(self._register_msg())
 
     def wipe(self) -> None:
         """Empty every table and start a fresh process (cheaper than a new database per case)."""
@@ -74,29 +86,32 @@ class ReconnHarness:
         self._new_process()
 
     # -- ops -----------------------------------------------------------------------------------
-    def _register_msg(self):
+    def _register_msg(self, other: bool = False):
         import openpectus.protocol.engine_messages as EM
         from openpectus import __version__
+        if other:
+            return EM.RegisterEngineMsg(computer_name="other-pc", uod_name="other", uod_author_name="",
+                                        uod_author_email="", uod_filename="", location="", engine_version=__version__)
         return EM.RegisterEngineMsg(computer_name=self.COMPUTER, uod_name=self.UOD, uod_author_name="",
                                     uod_author_email="", uod_filename="", location="", engine_version=__version__)
 
-    def register(self) -> str:
-        """RegisterEngineMsg, then the UodInfoMsg the engine sends right after it (one reading, interval 0)."""
+    def register(self, other: bool = False) -> str:
+        """RegisterEngineMsg, then the UodInfoMsg the engine sends right after it (one reading, its log interval)."""
         import openpectus.protocol.engine_messages as EM
         import openpectus.protocol.models as PM
-        rep = run(self.handlers.handle_RegisterEngineMsg(self._register_msg()))
+        rep = run(self.handlers.handle_RegisterEngineMsg(self._register_msg(other)))
         if not rep.success:
             return "refused"
         readings = [PM.ReadingInfo(discriminator="reading", tag_name=TAG, valid_value_units=None, entry_data_type=None,
                                    commands=[], command_options=None)]
-        msg = EM.UodInfoMsg(engine_id=self.engine_id, readings=readings, commands=[],
+        msg = EM.UodInfoMsg(engine_id=self.other_id if other else self.engine_id, readings=readings, commands=[],
                             uod_definition=PM.UodDefinition(commands=[], system_commands=[], tags=[]),
                             plot_configuration=PM.PlotConfiguration.empty(), hardware_str="hw", required_roles=set(),
-                            data_log_interval_seconds=0.0)
+                            data_log_interval_seconds=0.0 if other else float(self.interval))
         return self._reply(run(self.handlers.handle_UodInfoMsg(msg)))
 
-    def disconnect(self) -> str:
-        run(self.handlers.handle_EngineDisconnected(self.engine_id))
+    def disconnect(self, other: bool = False) -> str:
+        run(self.handlers.handle_EngineDisconnected(self.other_id if other else self.engine_id))
         return "ok"
 
     def restart(self, graceful: bool = True) -> str:
@@ -106,27 +121,37 @@ class ReconnHarness:
         self._new_process()
         return "ok"
 
-    def start(self, k: int) -> str:
+    def start(self, k: int, other: bool = False) -> str:
         import openpectus.protocol.engine_messages as EM
         return self._reply(run(self.handlers.handle_RunStartedMsg(
-            EM.RunStartedMsg(engine_id=self.engine_id, run_id=_rid(k), started_tick=1000.0))))
+            EM.RunStartedMsg(engine_id=self.other_id if other else self.engine_id,
+                             run_id=f"orun-{k}" if other else _rid(k), started_tick=float(self.epoch + 1000)))))
 
-    def stop(self, k: int) -> str:
+    def stop(self, k: int, other: bool = False) -> str:
         import openpectus.protocol.engine_messages as EM
         import openpectus.protocol.models as PM
         return self._reply(run(self.handlers.handle_RunStoppedMsg(
-            EM.RunStoppedMsg(engine_id=self.engine_id, run_id=_rid(k), runlog=PM.RunLog.empty(),
+            EM.RunStoppedMsg(engine_id=self.other_id if other else self.engine_id,
+                             run_id=f"orun-{k}" if other else _rid(k), runlog=PM.RunLog.empty(),
                              method_state=PM.MethodState.empty(), archive=None, archive_filename=None))))
 
     def tags(self, k: int | None, t: int, state: int | None = None) -> str:
         """TagsUpdatedMsg with X @ t and, if `state` is given, System State = STATES[state] @ t."""
         import openpectus.protocol.engine_messages as EM
         import openpectus.protocol.models as PM
-        tvs = [PM.TagValue(name=TAG, tick_time=float(t), value=t, value_unit=None)]
+        tick = float(self.epoch + t)
+        tvs = [PM.TagValue(name=TAG, tick_time=tick, value=t, value_unit=None)]
         if state is not None:
-            tvs.append(PM.TagValue(name=SYS, tick_time=float(t), value=STATES[state], value_unit=None))
+            tvs.append(PM.TagValue(name=SYS, tick_time=tick, value=STATES[state], value_unit=None))
         return self._reply(run(self.handlers.handle_TagsUpdatedMsg(
             EM.TagsUpdatedMsg(engine_id=self.engine_id, tags=tvs, run_id=None if k is None else _rid(k)))))
+
+    def other_tags(self, k: int | None, t: int) -> str:
+        import openpectus.protocol.engine_messages as EM
+        import openpectus.protocol.models as PM
+        tvs = [PM.TagValue(name=TAG, tick_time=float(t), value=t, value_unit=None)]
+        return self._reply(run(self.handlers.handle_TagsUpdatedMsg(
+            EM.TagsUpdatedMsg(engine_id=self.other_id, tags=tvs, run_id=None if k is None else f"orun-{k}"))))
 
     @staticmethod
     def _reply(msg) -> str:
@@ -143,6 +168,21 @@ class ReconnHarness:
             return self.disconnect()
         if kind == "restart":
             return self.restart()
+        if kind == "crash":
+            return self.restart(graceful=False)
+        if kind.startswith("o-"):           # the other engine: whatever it is answered, it must not affect ours
+            k = kind[2:]
+            if k == "register":
+                self.register(other=True)
+            elif k == "disconnect":
+                self.disconnect(other=True)
+            elif k == "start":
+                self.start(op[1], other=True)
+            elif k == "stop":
+                self.stop(op[1], other=True)
+            elif k == "tags":
+                self.other_tags(op[1], op[2])
+            return "ok"
         if kind == "start":
             return self.start(op[1])
         if kind == "stop":
@@ -165,12 +205,13 @@ class ReconnHarness:
         if ed is not None:
             if ed.has_run():
                 f["run"] = ed.run_data.run_id
-                f["lp"] = ed.run_data.latest_persisted_tick_time
+                lp = ed.run_data.latest_persisted_tick_time
+                f["lp"] = None if lp is None else lp - self.epoch
             tv = ed.tags_info.get(TAG)
-            f["tt"] = None if tv is None else tv.tick_time
+            f["tt"] = None if tv is None else tv.tick_time - self.epoch
             sv = ed.tags_info.get(SYS)
             if sv is not None:
-                f["ss"], f["st"] = sv.value, sv.tick_time
+                f["ss"], f["st"] = sv.value, sv.tick_time - self.epoch
         with self.database.create_scope():
             s = self.database.scoped_session()
             rows = s.execute(select(D.RecentEngine.run_id, D.RecentEngine.system_state)
@@ -178,15 +219,17 @@ class ReconnHarness:
             f["row"] = "none" if not rows else rows[0][0]
             f["row_state"] = None if not rows else rows[0][1]
             f["row_count"] = len(rows)
-            logs = s.execute(select(D.PlotLog.id, D.PlotLog.run_id).order_by(D.PlotLog.id)).all()
+            logs = s.execute(select(D.PlotLog.id, D.PlotLog.run_id).where(D.PlotLog.engine_id == self.engine_id)
+                             .order_by(D.PlotLog.id)).all()
             f["logs"] = [r for (_, r) in logs]
             pos = {i: n for n, (i, _) in enumerate(logs)}
             q = (select(D.PlotLogEntryValue.id, D.PlotLogEntry.plot_log_id, D.PlotLogEntryValue.tick_time,
                         D.PlotLogEntryValue.value_int)
                  .join(D.PlotLogEntry, D.PlotLogEntryValue.plot_log_entry_id == D.PlotLogEntry.id)
                  .order_by(D.PlotLogEntryValue.id))
-            f["values"] = [(pos[pl], tick, v) for (_, pl, tick, v) in s.execute(q).all()]
-            f["recent"] = list(s.scalars(select(D.RecentRun.run_id).order_by(D.RecentRun.id)).all())
+            f["values"] = [(pos[pl], tick - self.epoch, v) for (_, pl, tick, v) in s.execute(q).all() if pl in pos]
+            f["recent"] = list(s.scalars(select(D.RecentRun.run_id).where(D.RecentRun.engine_id == self.engine_id)
+                                         .order_by(D.RecentRun.id)).all())
         return f
 
     @classmethod
@@ -212,10 +255,25 @@ class ReconnHarness:
 def op_line(op: list) -> str:
     if op[0] in ("start", "stop"):
         return f"{op[0]}\t{op[1]}"
+    if op[0] == "crash":
+        return "crash"
+    if op[0].startswith("o-"):
+        return "noop"
     if op[0] == "tags":
         st = op[3] if len(op) > 3 and op[3] is not None else "-"
         return f"tags\t{'-' if op[1] is None else op[1]}\t{op[2]}\t{st}"
     return op[0]
+
+
+def probe_persist() -> bool:
+    """Does the code write the RecentEngines row with the run messages (so that a run survives a crash of the
+    aggregator process)?"""
+    h = ReconnHarness()
+    h.register()
+    h.start(1)
+    h.restart(graceful=False)
+    h.register()
+    return h.facts()["run"] == _rid(1)
 
 
 def probe_guarded() -> tuple[bool, bool]:
